@@ -331,3 +331,7 @@ Proof.
   - destruct h; discriminate E.
   - discriminate E.
 Qed.
+
+Lemma redir_response_no_host rport uri :
+  redir_response rport [] uri = (301, hex_escape_non_ascii (bs "https://" ++ port_part rport ++ uri), bs "close").
+Proof. reflexivity. Qed.
